@@ -390,14 +390,36 @@ def _check_spec_only(text, tl):
             i = _stmt_end(mk, i)
 
 
+def _expand_includes(path, seen=None):
+    """[(text, file, lineno)] with `//@include <relative path>` lines replaced by the file's lines."""
+    import os
+    seen = seen or []
+    if path in seen:
+        raise Unsupported("include cycle at %s" % path)
+    res = []
+    for k, ln in enumerate(open(path).read().split("\n")):
+        st = ln.strip()
+        if st.startswith("//@include"):
+            inc = st[len("//@include"):].strip()
+            ip = os.path.join(os.path.dirname(os.path.abspath(path)), inc)
+            if not os.path.exists(ip):
+                ip = os.path.join(os.path.dirname(os.path.dirname(os.path.abspath(__file__))), inc)
+            res += _expand_includes(ip, seen + [path])
+        else:
+            res.append((ln, path, k + 1))
+    if res and res[-1][0] == "":
+        res.pop()
+    return res
+
+
 def render(template_path, out_path, vacuity=False):
     """Process a template; write verifier input to out_path; return (report, linemap).
-    linemap[i] = origin of output line i+1: ("repo", file, line) | ("spec", template, line)."""
-    lines = open(template_path).read().split("\n")
+    linemap[i] = origin of output line i+1: ("repo", file, line) | ("spec", template file, line)."""
+    src_lines = _expand_includes(template_path)
+    lines = [t for (t, _f, _l) in src_lines]
     out = SrcText()
     report = []
     i = 0
-    cur_file = None
     file_of_char = []  # parallel to out.o for repo-origin chars
 
     def emit(st: SrcText, repo_file=None):
@@ -416,7 +438,7 @@ def render(template_path, out_path, vacuity=False):
             while i < len(lines) and not lines[i].strip().startswith("//@end"):
                 d = lines[i].strip()
                 if not d.startswith("//@"):
-                    raise Unsupported("%s:%d: non-directive line inside extract block" % (template_path, i + 1))
+                    raise Unsupported("%s:%d: non-directive line inside extract block" % (src_lines[i][1], src_lines[i][2]))
                 d = d[3:].strip()
                 if d.startswith("splice"):
                     where = d[len("splice"):].strip()
@@ -438,7 +460,8 @@ def render(template_path, out_path, vacuity=False):
             i += 1
         elif st.startswith("//@vacuity"):
             # canary slot inside an `ensures` list: only the shadow copy gets `false`
-            txt = ("false, //# vacuity-canary " + st[len("//@vacuity"):].strip()) if vacuity else ""
+            vname = st[len("//@vacuity"):].strip()
+            txt = ("false, //# vacuity-canary " + vname) if (vacuity is True or vacuity == vname) else ""
             emit(SrcText(txt + "\n", [-(i + 1)] * (len(txt) + 1)))
             i += 1
         else:
@@ -453,7 +476,10 @@ def render(template_path, out_path, vacuity=False):
         for k in range(pos, pos + len(l)):
             if not out.s[k].isspace():
                 o = out.o[k]
-                org = ("repo", file_of_char[k], o) if o > 0 else ("spec", template_path, -o)
+                if o > 0:
+                    org = ("repo", file_of_char[k], o)
+                elif o < 0 and -o - 1 < len(src_lines):
+                    org = ("spec", src_lines[-o - 1][1], src_lines[-o - 1][2])
                 break
         linemap.append(org)
         pos += len(l) + 1
